@@ -72,6 +72,39 @@ func main() {
 		fmt.Println(n, "functions with error-storing defers")
 		return
 	}
+	if *prop == "lints" { // debugging aid: the reusable lints over every production package (cross-reference, not a verdict)
+		p, err := Load(LoadOpts{Root: *repo, GOOS: "linux", GOARCH: "amd64"})
+		if err != nil {
+			fmt.Println(err)
+			os.Exit(2)
+		}
+		c := newCtx(p, "lints", "quick")
+		var shorts []string
+		for _, pk := range p.Pkgs {
+			if production(pk) {
+				shorts = append(shorts, shortPkg(pk.PkgPath))
+			}
+		}
+		RewriteTruncates(c, "rewrite-truncates", shorts...)
+		NoGoroutineKeepsCallerBuffer(c, "buffer-not-kept-past-return", shorts...)
+		for _, sp := range shorts {
+			for _, fi := range p.FuncsIn(sp) {
+				if fi.Decl.Body != nil && !p.isTestFile(fi.Decl.Pos()) {
+					CursorFollowsReader(c, "cursor-follows-reader", fi)
+				}
+			}
+		}
+		held := 0
+		for _, o := range c.Obs {
+			if o.Verdict != "held" {
+				fmt.Println(o.Verdict, o.Rule, o.Construct, o.Site, o.Detail)
+			} else {
+				held++
+			}
+		}
+		fmt.Println(held, "held")
+		return
+	}
 	spec := registry[*prop]
 	if spec == nil {
 		fmt.Printf("unknown property %q\n", *prop)
